@@ -116,6 +116,21 @@ def gen_scram_init(auth):
     _need(re.search(r"if\s*\(\s*binding_type_len\s*>\s*sizeof\(buf\)\s*\)", f), "header bound")
     _need(re.search(r"if\s*\(\s*binding_data_len\s*>\s*sizeof\(buf\)\s*-\s*binding_type_len\s*\)", f), "cb data bound")
     _need(re.search(r"scram->first_bare\s*=\s*message\s*\+\s*binding_type_len\s*;", f), "first_bare")
+    # RFC 5802 saslname escaping of the node: pairs (character, replacement); empty = the node is copied as is
+    pairs = []
+    if re.search(r"node\s*=\s*_scram_escape_username\(ctx,\s*jid_node\)", f):
+        e = func_body(auth, "_scram_escape_username")
+        pairs = re.findall(r"\(\*c\s*==\s*'(.)'\)\s*\{\s*memcpy\(p,\s*\"([^\"]*)\",\s*(\d+)\);\s*p\s*\+=\s*(\d+);", e)
+        if not pairs or any(int(a) != len(r) or a != b for _, r, a, b in pairs):
+            raise T.TranslateError("escape table of _scram_escape_username: %r" % pairs)
+        cnt = _need(re.search(r"len\s*\+=\s*\(([^?]*)\)\s*\?\s*(\d+)\s*:\s*(\d+)\s*;", e), "escape length pass")
+        counted = sorted(re.findall(r"\*c\s*==\s*'(.)'", cnt.group(1)))
+        if counted != sorted(c for c, _, _, _ in pairs) or cnt.group(3) != "1" or any(int(cnt.group(2)) != len(r) for _, r, _, _ in pairs):
+            raise T.TranslateError("escape length pass disagrees with the copy pass")
+    elif not re.search(r"node\s*=\s*xmpp_jid_node\(ctx,\s*conn->jid\)", f):
+        raise T.TranslateError("origin of node")
+    out += "Definition scram_user_escape : list (Z * list Z) := [%s].\n" % "; ".join(
+        "(%d, %s)" % (ord(c), zl(cbytes(r))) for c, r, _, _ in pairs)
     return out
 
 
@@ -177,7 +192,21 @@ def gen_digest(sasl):
     out = "(* ---- sasl_digest_md5 (src/sasl.c) ---- *)\n"
     out += zdef("digest_cnonce_size", int(_need(re.search(r"char\s+cnonce\s*\[\s*(\d+)\s*\]", f), "cnonce[]").group(1)))
     out += ldef("digest_nc", cbytes(_need(re.search(r'hash_add\(table,\s*"nc",\s*strophe_strdup\(ctx,\s*"([^"]*)"\)\)', f), "nc").group(1)))
-    out += ldef("digest_default_qop", cbytes(_need(re.search(r'if\s*\(hash_get\(table,\s*"qop"\)\s*==\s*NULL\)\s*hash_add\(table,\s*"qop",\s*strophe_strdup\(ctx,\s*"([^"]*)"\)\)', f), "default qop").group(1)))
+    m = _need(re.search(r'if\s*\(hash_get\(table,\s*"qop"\)\s*==\s*NULL\s*(\|\|\s*_qop_offers_auth\(hash_get\(table,\s*"qop"\)\)\s*)?\)\s*hash_add\(table,\s*"qop",\s*strophe_strdup\(ctx,\s*"([^"]*)"\)\)', f), "default qop")
+    out += ldef("digest_default_qop", cbytes(m.group(2)))
+    # selection of one alternative out of the server's qop-options: the token looked for and the separators
+    if m.group(1):
+        q = func_body(sasl, "_qop_offers_auth")
+        skip = re.findall(r"\*qop\s*==\s*'(.)'", _need(re.search(r"while\s*\(((?:\s*\(\*qop\s*==\s*'.'\)\s*\|\|)*\s*\(\*qop\s*==\s*'.'\))\s*\)\s*qop\+\+;", q), "qop skip loop").group(1))
+        sp = _need(re.search(r'n\s*=\s*strcspn\(qop,\s*"([^"]*)"\)', q), "qop strcspn").group(1)
+        t = _need(re.search(r'if\s*\(n\s*==\s*(\d+)\s*&&\s*strncmp\(qop,\s*"([^"]*)",\s*(\d+)\)\s*==\s*0\)\s*return\s+1;', q), "qop token test")
+        if sorted(skip) != sorted(sp) or int(t.group(1)) != len(t.group(2)) or t.group(1) != t.group(3):
+            raise T.TranslateError("_qop_offers_auth shape")
+        out += ldef("digest_qop_seps", cbytes(sp))
+        out += ldef("digest_qop_token", cbytes(t.group(2)))
+    else:
+        out += ldef("digest_qop_seps", [])
+        out += ldef("digest_qop_token", [])
     m = _need(re.search(r'memcpy\(value,\s*"([^"]*)",\s*(\d+)\);\s*memcpy\(value\s*\+\s*(\d+),\s*domain,\s*strlen\(domain\)\)', f), "digest-uri")
     if int(m.group(2)) != len(cbytes(m.group(1))) or m.group(2) != m.group(3):
         raise T.TranslateError("digest-uri prefix length")
